@@ -46,6 +46,7 @@ type cacheOp struct {
 	id, client int
 	method     string
 	path       string
+	target     string
 	noCache    bool
 	noStore    bool
 	invalidate bool
@@ -120,6 +121,17 @@ func cacheMain(s *simrt.Sim, info *harness.RunInfo) {
 			return c.Get("X-Next") == "1"
 		}
 	}
+	// the name of the status header and the cache key are configurable: a key that leaves the query out
+	// (the default) or one built from the path plus one query parameter
+	cacheHeader := simrt.PickS(s, "X-Cache", "X-Cache", "X-My-Cache-Status")
+	cfg.CacheHeader = cacheHeader
+	keyWithQuery := s.Chance(250)
+	if keyWithQuery {
+		cfg.KeyGenerator = func(c fiber.Ctx) string {
+			simrt.Yield(303)
+			return strings.Clone(c.Path()) + "|v=" + strings.Clone(c.Query("v"))
+		}
+	}
 	var sim *harness.SimStorage
 	if useSim {
 		sim = harness.NewSimStorage(s, "cache-store")
@@ -144,13 +156,13 @@ func cacheMain(s *simrt.Sim, info *harness.RunInfo) {
 			}
 		}
 	}
-	cfgLine := fmt.Sprintf("storage=%s maxBytes=%d E=%d expGen=%v inval=%v storeHdr=%v cacheControl=%v next=%v paths=%d clients=%d preempt=%d phase=%d storageDelays=%d",
+	cfgLine := fmt.Sprintf("storage=%s maxBytes=%d E=%d expGen=%v inval=%v storeHdr=%v cacheControl=%v next=%v paths=%d clients=%d preempt=%d phase=%d storageDelays=%d cacheHeader=%s keyWithQuery=%v",
 		map[bool]string{false: "memory", true: "sim"}[useSim], maxBytes, E, expGen, useInval, storeHdr, cacheCtl, useNext, npaths, nclients, preempt, phase, func() int {
 			if sim != nil {
 				return sim.DelayPermille
 			}
 			return 0
-		}())
+		}(), cacheHeader, keyWithQuery)
 	s.Logf("cfg %s", cfgLine)
 
 	nexec := 0
@@ -195,6 +207,15 @@ func cacheMain(s *simrt.Sim, info *harness.RunInfo) {
 		for j := 0; j < n; j++ {
 			op := &cacheOp{id: len(ops), client: ci, method: simrt.PickS(s, "GET", "GET", "GET", "HEAD", "POST"),
 				path: "/p" + strconv.Itoa(s.Draw(npaths)), wantStatus: 200, expS: E}
+			// path is the identity of the cache key (what the KeyGenerator returns), target the request line
+			op.target = op.path
+			switch {
+			case keyWithQuery:
+				v := strconv.Itoa(s.Draw(2))
+				op.target, op.path = op.path+"?v="+v, op.path+"|v="+v
+			case s.Chance(200):
+				op.target += "?v=" + strconv.Itoa(s.Draw(3)) // not part of the default key
+			}
 			if s.Chance(120) {
 				op.noCache = true
 			}
@@ -237,7 +258,7 @@ func cacheMain(s *simrt.Sim, info *harness.RunInfo) {
 			conn := harness.NewConn(app, "10.0.0."+strconv.Itoa(ci+1))
 			for j, op := range p.ops {
 				simrt.Sleep(time.Duration(p.think[j]) * time.Millisecond)
-				req := harness.Req{Method: op.method, Path: op.path, Headers: [][2]string{{"X-Op", strconv.Itoa(op.id)}}}
+				req := harness.Req{Method: op.method, Path: op.target, Headers: [][2]string{{"X-Op", strconv.Itoa(op.id)}}}
 				var cc []string
 				if op.noCache {
 					cc = append(cc, "no-cache")
@@ -281,7 +302,7 @@ func cacheMain(s *simrt.Sim, info *harness.RunInfo) {
 					resp := conn.Do(req.Bytes())
 					op.status, op.body = resp.Status, string(resp.Body)
 					op.rctype, op.renc = resp.Get("Content-Type"), resp.Get("Content-Encoding")
-					op.xcache, op.xextra = resp.Get("X-Cache"), resp.Get("X-Extra")
+					op.xcache, op.xextra = resp.Get(cacheHeader), resp.Get("X-Extra")
 					op.cacheControl = resp.Get("Cache-Control")
 				}()
 				op.ret, op.retT = s.Stamp(), time.Now()
